@@ -12,7 +12,7 @@ def run(chk, failed):
                 "sorted set of Notify calls (module, cluster, group, status, canonical event id, start clock, stateGood) and the final "
                 "incident records are compared with the extracted model; non-trivial = the history contains at least two incidents "
                 "of one (cluster, group); distinct by the case line")
-    G.check_body(chk, failed, "C13", G.oracle_c13, ["groups", "groups", "groups", "clock"], 14000, 400000, CORR)
+    G.check_body(chk, failed, "C13", G.oracle_c13, ["groups", "groups", "groups", "clock"], 40000, 800000, CORR)
     chk.assumptions += [
         "uuid.NewRandom is fresh (the model draws 1,2,3..; the probe numbers event ids by first appearance in the incident record)",
         "every (cluster, group) of a history is registered before its first response and never deleted (processConsumerList's add/delete of groups is not modelled; a deleted and re-added group starts a new record)",
